@@ -175,7 +175,7 @@ func satisfiable(fs []Formula, m map[Atom]int8, budget *int) (bool, map[Atom]int
 // ---------- per function context ----------
 
 type entFn struct {
-	ineqs      map[Atom]ineqRec // the integer comparisons behind gt/lt atoms (for the linear-arithmetic fallback)
+	ineqs      map[Atom]ineqRec            // the integer comparisons behind gt/lt atoms (for the linear-arithmetic fallback)
 	elemStores map[types.Object][]ast.Node // S[i] = v statements per local S
 	w          *World
 	root       *Func // outermost declaration (or package-level literal)
@@ -877,16 +877,141 @@ func (k keyCtx) norm(x ast.Expr) linForm {
 			return addForm(linForm{terms: map[string]int64{}}, k.norm(b.X), -1)
 		}
 	case *ast.Ident:
-		// expand single-assignment integer locals with call-free initialisers
+		// expand single-assignment integer locals with call-free initialisers (calls of length getters on a receiver that
+		// the function never writes count as call-free: they are the length)
 		if obj, ok := k.e.info.Uses[b].(*types.Var); ok && !obj.IsField() {
 			if as := k.e.assigns[obj]; len(as) == 1 {
-				if a, ok := as[0].(*ast.AssignStmt); ok && len(a.Lhs) == 1 && len(a.Rhs) == 1 && a.Tok == token.DEFINE && callFree(a.Rhs[0]) && isIntType(obj.Type()) {
+				if a, ok := as[0].(*ast.AssignStmt); ok && len(a.Lhs) == 1 && len(a.Rhs) == 1 && a.Tok == token.DEFINE && (callFree(a.Rhs[0]) || k.e.onlyLenGetterCalls(a.Rhs[0])) && isIntType(obj.Type()) {
 					return k.norm(a.Rhs[0])
 				}
 			}
 		}
+	case *ast.CallExpr:
+		if recv, deref, ok := k.e.lenGetter(b); ok {
+			var arg ast.Expr = recv
+			if deref {
+				arg = &ast.StarExpr{X: recv}
+			}
+			return linForm{terms: map[string]int64{"len(" + k.key(arg) + ")": 1}}
+		}
 	}
 	return linForm{terms: map[string]int64{k.key(x): 1}}
+}
+
+// lenGetter: call is R.M() with R a local of the root function that the function never writes (no store to or through it,
+// no other method called on it, never passed on), and M a module method whose body is `return len(*r)` / `return len(r)`
+// on its receiver: the call denotes the length of (*)R.
+func (e *entFn) lenGetter(call *ast.CallExpr) (ast.Expr, bool, bool) {
+	if e.w == nil || len(call.Args) != 0 {
+		return nil, false, false
+	}
+	sel, ok := unparen(call.Fun).(*ast.SelectorExpr)
+	if !ok {
+		return nil, false, false
+	}
+	rid, ok := unparen(sel.X).(*ast.Ident)
+	if !ok {
+		return nil, false, false
+	}
+	robj, ok := e.info.Uses[rid].(*types.Var)
+	if !ok || robj.IsField() {
+		return nil, false, false
+	}
+	callee := calleeOf(e.info, call)
+	if callee == nil {
+		return nil, false, false
+	}
+	if o := callee.Origin(); o != nil {
+		callee = o
+	}
+	g := e.w.byObj[callee]
+	if g == nil || g.Body == nil || g.Decl == nil || g.Decl.Recv == nil || len(g.Decl.Recv.List) != 1 || len(g.Decl.Recv.List[0].Names) != 1 || len(g.Body.List) != 1 {
+		return nil, false, false
+	}
+	ret, ok := g.Body.List[0].(*ast.ReturnStmt)
+	if !ok || len(ret.Results) != 1 {
+		return nil, false, false
+	}
+	lc, ok := unparen(ret.Results[0]).(*ast.CallExpr)
+	ginfo := g.Pkg.TypesInfo
+	if !ok || !isBuiltin(ginfo, lc, "len") || len(lc.Args) != 1 {
+		return nil, false, false
+	}
+	recvObj := ginfo.Defs[g.Decl.Recv.List[0].Names[0]]
+	arg := unparen(lc.Args[0])
+	deref := false
+	if st, ok := arg.(*ast.StarExpr); ok {
+		arg, deref = unparen(st.X), true
+	}
+	aid, ok := arg.(*ast.Ident)
+	if !ok || ginfo.Uses[aid] != recvObj {
+		return nil, false, false
+	}
+	// the receiver local is never written in the root function, and only length getters are called on it
+	quiet := true
+	ast.Inspect(e.root.Body, func(n ast.Node) bool {
+		switch q := n.(type) {
+		case *ast.AssignStmt:
+			for _, l := range q.Lhs {
+				if r := identOfRoot(stripIndexes(l)); r != nil && e.info.Uses[r] == types.Object(robj) {
+					quiet = false
+				}
+				if st, ok := unparen(l).(*ast.StarExpr); ok {
+					if r := identOf(st.X); r != nil && e.info.Uses[r] == types.Object(robj) {
+						quiet = false
+					}
+				}
+			}
+		case *ast.IncDecStmt:
+			if r := identOfRoot(stripIndexes(q.X)); r != nil && e.info.Uses[r] == types.Object(robj) {
+				quiet = false
+			}
+		case *ast.UnaryExpr:
+			if q.Op == token.AND {
+				if r := identOfRoot(stripIndexes(q.X)); r != nil && e.info.Uses[r] == types.Object(robj) {
+					quiet = false
+				}
+			}
+		case *ast.CallExpr:
+			if q == call {
+				return true
+			}
+			for _, a := range q.Args {
+				if r := identOf(a); r != nil && e.info.Uses[r] == types.Object(robj) && !isBuiltin(e.info, q, "len") && !isBuiltin(e.info, q, "cap") {
+					quiet = false
+				}
+			}
+			if qs, ok := unparen(q.Fun).(*ast.SelectorExpr); ok {
+				if r := identOf(qs.X); r != nil && unparen(qs.X) == ast.Expr(r) && e.info.Uses[r] == types.Object(robj) {
+					if c2 := calleeOf(e.info, q); c2 == nil || (c2.Origin() != callee && c2 != callee) {
+						quiet = false
+					}
+				}
+			}
+		}
+		return quiet
+	})
+	if !quiet {
+		return nil, false, false
+	}
+	return rid, deref, true
+}
+
+func (e *entFn) onlyLenGetterCalls(x ast.Expr) bool {
+	ok := true
+	ast.Inspect(x, func(n ast.Node) bool {
+		switch q := n.(type) {
+		case *ast.FuncLit:
+			ok = false
+		case *ast.CallExpr:
+			if _, _, is := e.lenGetter(q); !is {
+				ok = false
+			}
+			return false
+		}
+		return ok
+	})
+	return ok
 }
 
 func callFree(e ast.Expr) bool {
